@@ -170,11 +170,22 @@ def provenance_rule(ctx, rule="R07.8"):
         return
     stored, priv = ties[0]
     updates = [n for n in ast.walk(fn) if isinstance(n, ast.Assign) and ast.unparse(n.targets[0]) == priv]
-    ok = bool(updates) and all(ast.unparse(u.value) == "krige_var" for u in updates) and all(any(u is x for x in ast.walk(ri.orelse_node)) if hasattr(ri, "orelse_node") else True for u in updates)
+    ok = bool(updates) and all(ast.unparse(u.value) == "krige_var" or (isinstance(u.value, ast.IfExp) and ast.unparse(u.value.body) == "krige_var" and ast.unparse(u.value.orelse) == "None") for u in updates) and all(any(u is x for x in ast.walk(ri.orelse_node)) if hasattr(ri, "orelse_node") else True for u in updates)
     in_else = all(any(u is x for st in ri.orelse for x in ast.walk(st)) for u in updates)
     after = all(u._ord > ri._ord for u in updates)
     ctx.check(ok and (in_else or after), rule, site, "the reuse test requires %s to be the very object (%s) remembered when the raw kriging field was computed; it is updated from `krige_var` on the recompute path"
               % (stored, priv), "provenance")
+    # the remembered variance must go together with the raw field actually STORED: post_field(rawkrige, name[2], False, <save flag>) stores iff the flag
+    pf = [n for n in ast.walk(fn) if isinstance(n, ast.Call) and ast.unparse(n.func) == "self.post_field" and len(n.args) >= 2 and ast.unparse(n.args[1]) == "name[2]"]
+    flag = ast.unparse(pf[0].args[3]) if len(pf) == 1 and len(pf[0].args) >= 4 else ({k.arg: ast.unparse(k.value) for k in pf[0].keywords}.get("save") if len(pf) == 1 else None)
+    if flag is not None and flag not in ("True",):
+        tied = True
+        for u in updates:
+            v = u.value
+            via_ifexp = isinstance(v, ast.IfExp) and ast.unparse(v.test) == flag and ast.unparse(v.body) == "krige_var" and ast.unparse(v.orelse) == "None"
+            via_if = any(isinstance(s2, ast.If) and ast.unparse(s2.test) == flag and any(u is x for x in ast.walk(s2)) for s2 in ast.walk(fn))
+            tied = tied and (via_ifexp or via_if)
+        ctx.check(tied, rule, site, "the variance object is remembered only when the raw kriging field was actually stored (flag `%s`); otherwise an older stored raw field would be paired with it" % flag, "provenance-stored")
     guarded = [u for u in updates if not in_else and after]
     for u in guarded:
         par_ok = any(isinstance(s2, ast.If) and ast.unparse(s2.test) == "not reuse" and any(u is x for x in ast.walk(s2)) for s2 in fn.body)
@@ -211,6 +222,33 @@ def call_inputs_rule(ctx, rule="R07.9"):
         ok = ("kwargs.get('%s')" % p_) in test_txt or ("'%s' in kwargs" % p_) in test_txt or ("'%s' not in kwargs" % p_) in test_txt
         ctx.check(ok, rule, site, "kriging input `%s` can be passed through **kwargs; the reuse test must exclude calls that pass it (test: %s)" % (p_, test_txt[:120]), "call-input:" + p_)
     ctx.floor(rule, "user-controlled kriging inputs of the call", n, 1)
+
+
+def detector_reference_rule(ctx, rule="R07.10"):
+    """The change detector compares the positions of this call with the positions STORED by the previous call.  If the stored tuple
+    shares memory with the caller's array, an in-place change of that array changes both sides of the comparison at once: the
+    positions count as unchanged and the cached kriging results of the old positions are reused."""
+    from .. import alias
+
+    an = alias.Analyzer(ctx.prog)
+    an.run()
+    n = 0
+    fld = ctx.prog.cls(FB, "Field")
+    for ci in [fld] + list(ctx.prog.subclasses(fld)):
+        for kind, sfx in (("setters", "@set"), ("methods", "")):
+            for name, fn in getattr(ci, kind).items():
+                fq = "%s::%s.%s%s" % (ci.module.relpath, ci.name, name, sfx)
+                sm = an.summ.get(fq)
+                if sm is None:
+                    continue
+                direct = any(isinstance(x, ast.Attribute) and x.attr == "_pos" and isinstance(x.ctx, ast.Store) for x in ast.walk(fn))
+                for attr, labs in sorted(sm.store.items()):
+                    if attr != "_pos" or not direct:
+                        continue
+                    n += 1
+                    ps = sorted(l for l in labs if l.startswith("P:"))
+                    ctx.check(not ps, rule, fq, "the stored positions do not share memory with the caller's array (may alias: %s)" % ps, "pos-alias:" + ",".join(ps))
+    ctx.floor(rule, "stores of the position tuple", n, 1)
 
 
 def detector_rule(ctx, rule="R07.3"):
@@ -283,11 +321,15 @@ def deletion_rule(ctx, rule="R07.7"):
 
 
 def run(ctx):
+    from .C11 import generator_coherence
+
+    generator_coherence(ctx, rule="R07.11")  # the unconditional part must be generated from the current model and seed: generator state (shared with C11)
     deletion_rule(ctx)
     writer_rule(ctx)
     reuse_rule(ctx)
     provenance_rule(ctx)
     call_inputs_rule(ctx)
+    detector_reference_rule(ctx)
     detector_rule(ctx)
     from .C11 import update_before_generate
 
